@@ -262,31 +262,77 @@ def r_ord_ctor(ctx):
     raises = [nd for nd in f.stmts(ast.Raise) if nd.kind == 'stmt']
 
     def table(lname_pred, extra_true):
+        """for quantity <, =, > window: 'raise' when some raise fires whatever the other parameters are, 'accept' when there
+        is a setting of the other parameters under which none fires, 'unknown' when the guards cannot be evaluated"""
+        import itertools
         res = []
-        for l, r in ((1, 2), (2, 2), (3, 2)):     # (quantity, window)
-            fired = unknown = False
+        all_conds = [(nd, ctx.conds(f, nd)) for nd in raises]
+        # parameters the quantity is made of: their `is None` tests are false (the parameter is supplied)
+        mine = set()
+        for nd, conds in all_conds:
+            for a_, _p in conds:
+                for x in walk_term(a_):
+                    if lname_pred(x):
+                        mine |= {y[1] for y in walk_term(x) if y[0] == 'v' and y[2] == 'P'}
 
-            def relevant(a_):
-                return any(lname_pred(x) for x in walk_term(a_))
-            for nd in raises:
-                vals = []
-                for atom, pol in ctx.conds(f, nd):
-                    def at(x):
-                        if lname_pred(x):
-                            return l
-                        if x == ('v', 'observed_length', 'P'):
-                            return r
-                        if x[0] == 'cmp' and x[1] == 'is' and x[3] == ('c', None):
-                            return False
-                        return UNKNOWN
-                    v = feval(atom, at)
-                    vals.append(UNKNOWN if v is UNKNOWN else (bool(v) == pol))
-                if vals and all(v is True for v in vals):
-                    fired = True
-                elif vals and not any(v is False for v in vals) and any(
-                        v is UNKNOWN and relevant(atom_) for v, (atom_, _p) in zip(vals, ctx.conds(f, nd))):
-                    unknown = True
-            res.append('raise' if fired else ('unknown' if unknown else 'accept'))
+        def has_q(t_):
+            return any(lname_pred(x) for x in walk_term(t_))
+
+        def leaves(t_, out):
+            if t_[0] == 'bool':
+                for x in t_[2:]:
+                    leaves(x, out)
+            elif t_[0] == 'un' and t_[1] == 'not':
+                leaves(t_[2], out)
+            elif t_[0] == 'cmp' and t_[1] in ('is', 'is not') and t_[3] == ('c', None) and t_[2][0] == 'v' and t_[2][1] in mine:
+                pass
+            elif not has_q(t_):
+                out.add(('cmp', 'is') + t_[2:] if t_[0] == 'cmp' and t_[1] == 'is not' else t_)
+        free = set()
+        for nd, conds in all_conds:
+            for a_, _p in conds:
+                leaves(a_, free)
+        free = sorted(free, key=repr)
+        if len(free) > 10:
+            return ('unknown', 'unknown', 'unknown')
+        for l, r in ((1, 2), (2, 2), (3, 2)):     # (quantity, window)
+            outcomes = set()
+            for bits in itertools.product((False, True), repeat=len(free)):
+                assign = dict(zip(free, bits))
+
+                def at(x):
+                    if x in assign:
+                        return assign[x]
+                    if x[0] == 'cmp' and x[1] == 'is not' and ('cmp', 'is') + x[2:] in assign:
+                        return not assign[('cmp', 'is') + x[2:]]
+                    if lname_pred(x):
+                        return l
+                    if x == ('v', 'observed_length', 'P'):
+                        return r
+                    if x[0] == 'cmp' and x[1] in ('is', 'is not') and x[3] == ('c', None) and x[2][0] == 'v' and x[2][1] in mine:
+                        return x[1] == 'is not'
+                    # any(test(m) for m in motifs): the table models a list holding one motif of the given length
+                    if is_call(x, 'builtins.any', 'builtins.all') and len(x[2]) == 1 and x[2][0][0] == 'comp' and \
+                            len(x[2][0][3]) == 1 and not x[2][0][3][0][1]:
+                        return feval(x[2][0][2], at)
+                    return UNKNOWN
+                fired = maybe = False
+                for nd, conds in all_conds:
+                    vals = []
+                    for atom, pol in conds:
+                        v = feval(atom, at)
+                        vals.append(UNKNOWN if v is UNKNOWN else (bool(v) == pol))
+                    if vals and all(v is True for v in vals):
+                        fired = True
+                    elif vals and not any(v is False for v in vals):
+                        maybe = True
+                outcomes.add('raise' if fired else ('unknown' if maybe else 'accept'))
+            if outcomes == {'raise'}:
+                res.append('raise')
+            elif 'accept' in outcomes:
+                res.append('accept')
+            else:
+                res.append('unknown')
         return tuple(res)
     run.count('cases', 6)
     t1 = table(lambda x: x == ('v', 'max_homopolymer_runs', 'P'), None)
@@ -857,7 +903,15 @@ def r_bfs(ctx):
             it = f.term(nd.stmt.iter, nd)
             if is_call(it, 'builtins.range'):
                 loops.append((nd, it))
-    run.floor('R-BFS', 'depth loops in obtain_leaf_vertices', len(loops), 2)
+    fused = False
+    if len(loops) == 1:
+        # one level loop serving both representations: its body reads the accessor and the latter map
+        nd0 = loops[0][0]
+        body0 = [n for n in f.nodes if nd0.id in n.loops]
+        reads = {x for n, _r, t in ctx.root_terms(f) if n in body0 and t is not None for x in walk_term(t)
+                 if x in (('v', 'accessor', 'P'), ('v', 'latter_map', 'P'))}
+        fused = len(reads) == 2
+    run.floor('R-BFS', 'depth loops in obtain_leaf_vertices', len(loops), 1 if fused else 2)
     depth = ('v', 'depth', 'P')
     for i, (nd, it) in enumerate(loops):
         run.check(it[2] == (depth,), 'R-BFS', f, 'depth-loop#%d:bound' % (i + 1), nd.lineno, 'iterates range(depth)',
@@ -937,6 +991,11 @@ def r_bfs(ctx):
                     if atom[0] == 'cmp' and atom[1] == 'in' and pol and atom[3] == ('v', 'latter_map', 'P'):
                         continue
                     extra.append((show(atom)[:50], pol))
+                dedup = any((' in ' in a_ and not p_) or 'set(' in a_ or 'seen' in a_ or 'visited' in a_ for a_, p_ in extra)
+                if extra and not dedup:
+                    run.undecided('R-BFS', f, 'depth-loop#%d:every-frontier-element-expanded' % (i + 1), x.lineno,
+                                  'the level is extended under a condition this rule does not interpret: %s' % extra)
+                    continue
                 run.check(not extra, 'R-BFS', f, 'depth-loop#%d:every-frontier-element-expanded' % (i + 1), x.lineno,
                           'the level is extended for every frontier element',
                           'the level is extended only when %s: repeated frontier vertices are not expanded once per '
